@@ -1,3 +1,4 @@
+import GramModel.Lemmas.EvalTracesPin
 import GramModel.Lemmas.ArmsTie
 import GramModel.Check
 import GramModel.Oracle
@@ -454,3 +455,8 @@ theorem C06_whnf_prims_tie : C06_whnf_prims_tie_stmt := by
 child with the i-th child, every child (λ: bodies only), joined by `&&` only. -/
 def C06_syneq_pairs_tie_stmt : Prop := pairsOK Generated.synEqPairs = true
 theorem C06_syneq_pairs_tie : C06_syneq_pairs_tie_stmt := by unfold C06_syneq_pairs_tie_stmt; decide
+
+/-- `normalizer.rs::normalize_weak_head`: in every arm other than the nine binary operators (C06_whnf_prims_tie covers those) the calls that matter — a variable's definition shifted by `index + 1 - offset` and normalised, the function of an application normalised and β by `open(body, 0, argument, 0)` WITHOUT a value test on the argument (normal order), every member of a group unfolded with `i_index` / `i_index + 1`, a solved hole read through `unsigned_shift(.., 0, shift)` — are, in order, the ones the model `whnfS` performs (regenerated from the source on every run). -/
+def C06_whnf_traces_tie_stmt : Prop :=
+  tracesOf "normalize_weak_head" Generated.evalTraces = tracesOf "normalize_weak_head" expectedEvalTraces
+theorem C06_whnf_traces_tie : C06_whnf_traces_tie_stmt := by unfold C06_whnf_traces_tie_stmt; decide +kernel
